@@ -17,7 +17,7 @@ func main() {
 	r := drv.NewRand(cfg.Seed)
 	w := emit.NewWriter(cfg.Out, "C04_spec", 0, cfg.Only)
 	n := cfg.Count(240, 4000)
-	p := c04_hist.Profile{MaxOps: 12, MaxFlows: 2, MaxRefresh: 1, OfflinePct: 50, CodeAttacks: 60, RefreshOff: 6, RefreshAtk: 30, FlowMutation: 30, FaultPct: 25, DropPct: 6, HintPct: 25, ROPct: 30, KeepPct: 12, TwinPct: 12, OmitPct: 12, OtherAuthPct: 25, LoudPct: 35, RevokePct: 4, OddScopePct: 4, ReplacePct: 35, WarmPct: 20, OverlapPct: 12, AudPct: 15}
+	p := c04_hist.Profile{MaxOps: 12, MaxFlows: 2, MaxRefresh: 1, OfflinePct: 50, CodeAttacks: 60, RefreshOff: 6, RefreshAtk: 30, FlowMutation: 30, FaultPct: 25, DropPct: 6, HintPct: 25, ROPct: 30, KeepPct: 12, TwinPct: 12, OmitPct: 12, OtherAuthPct: 25, LoudPct: 35, RevokePct: 4, OddScopePct: 4, ReplacePct: 35, WarmPct: 20, OverlapPct: 12, AudPct: 15, PostPct: 25, ZeroAuthPct: 8, GrantsPct: 10}
 	if !cfg.Quick {
 		p.MaxOps, p.MaxFlows, p.MaxRefresh = 40, 4, 2
 	}
